@@ -94,6 +94,7 @@ def gen(rng, idx, tier):
     p_cplx_rhs = float(rng.choice([0.0, 0.3, 0.7])) if allow_cplx_rhs else 0.0
     p_update = float(rng.choice([0.1, 0.25, 0.4]))
     p_fault = float(rng.choice([0.0, 0.3, 0.6])) if solver in ("chol", "auto_dense") else 0.0
+    scale = float(rng.choice([1.0, 1.0, 1e3, 1e-3, 1e-10, 1e8]))     # one magnitude per solver object history
     ops = []
     for j in range(int(rng.integers(3, 30 if big else 16))):
         o = int(rng.integers(0, nobj))
@@ -102,7 +103,7 @@ def gen(rng, idx, tier):
                 ops.append(dict(op="fault", kind="cholesky_fail", arm=1))
             ops.append(dict(op="update", o=(j if j < nobj else o), seed=int(rng.integers(1 << 30)),
                             pattern=str(rng.choice(["full", "full", "banded", "random", "block"])),
-                            scale=float(rng.choice([1.0, 1.0, 1e3, 1e-3]))))
+                            scale=scale * float(rng.choice([1.0, 1.0, 10.0, 0.1]))))
         else:
             ops.append(dict(op="solve", o=o, seed=int(rng.integers(1 << 30)), trans=str(rng.choice(["N", "N", "T", "H"])),
                             k=int(rng.choice([0, 0, 1, 2, 3])), cplx=bool(rng.random() < p_cplx_rhs),
@@ -330,7 +331,8 @@ def run(case):
         if op["x0"] == "zero":
             x0 = np.zeros(shape, dtype=np.result_type(b, Ad))
         elif op["x0"] == "random":
-            x0 = G.rand_vec(op["seed"] + 3, shape, cplx_b or case["cplx"])
+            xe = np.linalg.solve(M, b)
+            x0 = xe + float(np.max(np.abs(xe))) * G.rand_vec(op["seed"] + 3, shape, cplx_b or case["cplx"])    # wrong, but of the right magnitude
         elif op["x0"] == "exact":
             x0 = np.linalg.solve(M, b).astype(np.result_type(b, Ad))
         elif op["x0"] == "previous" and ob["prev"] is not None and ob["prev"].shape == shape:
